@@ -54,6 +54,8 @@ class World:
         for o in objs:
             o["x"] += o["vx"] + r.uniform(-1, 1); o["y"] += o["vy"] + r.uniform(-1, 1)
             if r.random() < 0.05: o["vx"], o["vy"] = r.uniform(-25, 25), r.uniform(-25, 25)     # sudden fast move
+            if self.visual and r.random() < 0.06:                                                  # sudden change of size: the detection's own box and the
+                o["h"] = min(60.0, max(5.0, o["h"] * r.choice([0.35, 0.5, 2.0])))                  # track's smoothed box fall on different sides of the area threshold
             if r.random() < 0.2: continue                                                          # missed detection
             conf = r.choice([1.0, 0.9, 0.5, 0.04, r.uniform(0.05, 1.0)])
             cu = None if r.random() < 0.5 else self.next_custom
@@ -82,7 +84,7 @@ class World:
         if r.random() < 0.15:
             return ((q, None),)
         emb = o["emb"] if o is not None else [r.uniform(-1, 1) for _ in range(self.dim)]
-        noise = r.choice([0.01, 0.01, 0.05, 0.3])
+        noise = r.choice([0.01, 0.01, 0.05, 0.3, 0.8])        # 0.8: the same object seen with a similarity well below 1
         return ((q, [f32(v + r.uniform(-noise, noise)) for v in emb]),)
 
 
@@ -102,7 +104,7 @@ def new_line(rng, kind, shards=None, vshards=None, hist=None, max_idle=None, met
     c = " ".join([str(len(cons))] + ["%d %s" % (g, f32tok(l)) for g, l in cons])
     line = "trk new %s %d %d %d %d %s %s %s" % (kind, shards, vshards, hist, max_idle, m, f32tok(minconf), c)
     if kind in VISUAL:
-        vk = rng.choice([("euclid", rng.choice([0.15, 0.3, 0.6])), ("cosine", rng.choice([0.9, 0.98, 0.3]))])
+        vk = rng.choice([("euclid", rng.choice([0.15, 0.3, 0.6])), ("cosine", rng.choice([0.9, 0.98, 0.3, 0.2]))])
         max_obs = rng.randint(1, 8)
         min_len = rng.randint(1, min(3, max_obs))
         own = rng.random() < own_p
